@@ -4,7 +4,7 @@
    implementation's own answers (a journal of acknowledged writes kept by this file, not by the
    model).  Depends on Model.v and Crc32c.v only. *)
 From Coq Require Import String List ZArith NArith Bool.
-From TM Require Import Common.Hex Generated.Consts C15.Crc32c C15.Model.
+From TM Require Import Common.Hex Generated.Consts C15.Crc32c C15.Model C15.ModelSync.
 Import ListNotations.
 Open Scope Z_scope.
 
@@ -71,7 +71,20 @@ Inductive case :=
 | CWal (hl tl : Z) (base : Z) (pre : list (list (pl * option Z)))
        (ops : list xop) (answers : list xans) (snaps : list snap)
        (final_files : list pl) (final_head : pl)
-| CNode (stages : list nstage).
+| CNode (stages : list nstage)
+(* ---- node lives that START ON A SYNCED STATE (harness c15_sync, finding F88): the stores hold
+   blocks 1..H made elsewhere, the WAL is fresh; a real State is started through State.OnStart
+   with doWALCatchup = false (what Reactor.SwitchToConsensus(state, skipWAL = true) does), runs
+   height H+1 and is killed in front of WAL write number crashAt (ended: 1 killed at a write,
+   2 killed in front of #ENDHEIGHT H+1, other: see NStage).  Checkpoint with the node down:
+   committed, recs, term as in NStage.  Then the restart with catch-up: the REAL
+   State.catchupReplay(committed+1) on a fresh State over what is on disk (as State.OnStart runs
+   it, the receive routine not yet started): rerr = 0 nil, 1 "WAL does not contain #ENDHEIGHT",
+   2 DataCorruptionError, 3 other; the state machine afterwards: height, Proposal set, number of
+   prevotes and of precommits in round 0.  fres: what a final real cs.Start() returned
+   (0 nil, 1 error, 2 killed). *)
+| CSync (H crashAt : Z) (ended : N) (committed : Z) (recs : list nrec) (term : N)
+        (rerr : N) (rh : Z) (rprop : bool) (rprev rprec : Z) (fres : N).
 
 (* ---------------------------------------------------------------- running the model *)
 Definition tag_tab := list (bytes * option Z).
@@ -555,6 +568,52 @@ Definition nstep (m : nmon) (sg : nstage) : nmon :=
   {| n_prev := Some (recs, term, committed); n_taint := taint; n_lost := lost; n_pending := pending;
      n_verd := n_verd m ++ [v1b; v1a; v1c; v2; v3] ++ cmp ++ [vh] |}.
 
+(* ---------------------------------------------------------------- start on a synced state
+   Clause 5 (last clause of the property, on what the implementation answered only): the log is
+   intact (a sequential reader came to a clean end) and holds records of the unfinished height
+   u = committed+1 — the restart with catch-up must bring the node back to what they say: with
+   the node's own precommit in the log the single validator commits u while replaying (height
+   u+1) or at least holds the proposal and the precommit; without it the node stands at u, has
+   the proposal when the log holds one and at least the prevotes the log holds. *)
+Definition count_kind (k : N) (h : Z) (l : list nrec) : Z :=
+  Z.of_nat (List.length (filter (fun r => let '(NR k' h' _ _) := r in (k' =? k)%N && (h' =? h)) l)).
+Definition sync_restored (committed : Z) (recs : list nrec) (rh : Z) (rprop : bool)
+                         (rprev rprec : Z) : bool :=
+  let u := committed + 1 in
+  if 0 <? count_kind 6 u recs
+  then (rh =? u + 1) || ((rh =? u) && rprop && (1 <=? rprec))
+  else (rh =? u) && (implb (0 <? count_kind 3 u recs) rprop) && (count_kind 5 u recs <=? rprev).
+
+(* the log as State.OnStart found it: the records in front of #ENDHEIGHT H / of the first record
+   of height H+1 *)
+Fixpoint before_height (H : Z) (l : list nrec) : list nrec * list nrec :=
+  match l with
+  | [] => ([], [])
+  | NR k h c n :: r =>
+    if ((k =? 0)%N && (h =? H)) || (h =? H + 1) then ([], l)
+    else let '(a, b) := before_height H r in (NR k h c n :: a, b)
+  end.
+(* Model (ModelSync.mark_synced, the code after the F88 repair) on a log of that framing: does
+   the start on the synced state write the marker? *)
+Definition model_marks (pre : list nrec) (H : Z) : bool :=
+  let lg := synth_log pre in
+  let hd := concat (map (fun x => frame crc32c_be (fst x)) lg) in
+  let s := set_disk (init 0 0) [] hd (len hd) [] in
+  let dH := repeat 254%N 12 in
+  let s' := mark_synced crc32c_be (fun _ => true) (lookup ((dH, Some H) :: lg)) true true s H dH in
+  negb (len (head s' ++ buf s') =? len hd).
+
+Definition sync_verd (H committed : Z) (recs : list nrec) (term rerr : N) (rh : Z) (rprop : bool)
+                     (rprev rprec : Z) (fres : N) : list verdict :=
+  let '(pre, rest) := before_height H recs in
+  let impl_marks := match rest with NR k h _ _ :: _ => (k =? 0)%N && (h =? H) | [] => false end in
+  let '(st, _) := model_start recs 0 0 0 0 (committed + 1) true in
+  [ (if (term =? 0)%N then viol (sync_restored committed recs rh rprop rprev rprec) 5 else V_ok);
+    viol (increasing (nmarkers recs)) 2;
+    mism (Bool.eqb (model_marks pre H) impl_marks) 22;
+    mism (Bool.eqb (st =? 0)%N (rerr =? 0)%N) 23;
+    mism (fres =? 0)%N 24 ].
+
 Definition check (c : case) : verdict :=
   match c with
   | CWal hl tl base pre ops answers snaps ffiles fhead =>
@@ -574,6 +633,8 @@ Definition check (c : case) : verdict :=
               cmp_answers mans answers ++ cmp_snaps msnaps snaps ++
               [ mism (list_eqb bytes_eqb (files s) (map unpl ffiles)) 17;
                 mism (bytes_eqb (head s ++ buf s) (unpl fhead)) 18 ])
+  | CSync H crashAt ended committed recs term rerr rh rprop rprev rprec fres =>
+    first_of (sync_verd H committed recs term rerr rh rprop rprev rprec fres)
   | CNode stages =>
     first_of (n_verd (fold_left nstep stages {| n_prev := None; n_taint := false; n_lost := []; n_pending := false; n_verd := [] |}))
   end.
